@@ -40,9 +40,27 @@ def make_sig(evs):
         if e.get("ev") == "schema":
             sch[e["h"]] = e
 
+    # shape bookkeeping (never a verdict): `staleidx` marks the steps of a history that come after a statement
+    # which FAILED while its foreign-key work was under way (a failed DELETE / UPDATE, or a failed multi-row
+    # INSERT into a self-referencing table): the indexes of the foreign-key columns are corrupt from then on
+    stale, suspect = {}, {}
+    for n in sorted(evs):
+        e = evs[n]
+        if e.get("ev") == "schema":
+            suspect[e["h"]] = False
+        elif e.get("ev") == "step":
+            stale[(e["h"], e["id"])] = suspect.get(e["h"], False)
+            if e.get("op") == "stmt" and e["reply"]["kind"] == "err":
+                st, fks = e["stmt"], sch.get(e["h"], {}).get("fks", [])
+                selfref = any(f["child"] == f["parent"] == st["t"] for f in fks)
+                if st["k"] in ("delete", "update") or (st["k"] == "insert" and len(st["rows"]) >= 2 and selfref):
+                    suspect[e["h"]] = True
+
     def sig(m, ev):
         s = sch.get(ev["h"], {})
         ctx = selfacts(ev, s) if ev.get("op") == "stmt" else []
+        if stale.get((ev["h"], ev["id"])):
+            ctx.append("staleidx")
         r = ev["reply"]
         return "C18|%s|got=%s|%s|%s|%s" % ("+".join(m["what"]), r["kind"] + (":" + r["class"] if r.get("class") else ""),
                                           ev["stmt"]["k"] if ev.get("op") == "stmt" else ev.get("op"), s.get("graph", ""), ",".join(ctx))
